@@ -248,7 +248,8 @@ impl<'a> StringParser<'a> {
                         ),
                     ));
                 }
-                '(' | '{' | '[' => {
+                // after the self-documenting `=` only blanks, `!`, `:` or `}` may follow
+                '(' | '{' | '[' if !self_documenting => {
                     expression.push(ch);
                     delimiters.push(ch);
                 }
@@ -370,7 +371,7 @@ impl<'a> StringParser<'a> {
                     };
                     return Ok(ret);
                 }
-                '"' | '\'' => {
+                '"' | '\'' if !self_documenting => {
                     expression.push(ch);
                     // a triple-quoted string ends at three quote characters in a row
                     let triple = {
